@@ -8,6 +8,7 @@ import (
 	"context"
 	"encoding/json"
 	"fmt"
+	"io"
 	"math"
 	"reflect"
 	"runtime"
@@ -587,6 +588,38 @@ func main() {
 	for b := 0x80; b < 0x100; b++ {
 		checkAll(string([]byte{byte(b)}), true)
 		checkAll(string([]byte{'a', byte(b), '"'}), true)
+	}
+
+	// ----- histories: a value that cannot be encoded (an error is the documented outcome), then adversarial values
+	// through every position, on one goroutine pinned to its thread so that pooled encoders/buffers are met again -----
+	{
+		runtime.LockOSThread()
+		failing := []any{make(chan int), func() {}, math.NaN(), math.Inf(-1), complex(1, 2), map[string]any{"k": make(chan int)}, []any{"</script>", func() {}}}
+		histories := 0
+		for _, f := range failing {
+			for _, after := range []any{"</script><!--", "<!--<script>", "'\"`${x}", []string{"</script>"}, map[string]string{"</script>": "<!--"}} {
+				// every entry point once with the failing value, immediately followed by the adversarial value
+				for _, p := range positions {
+					render(p.mk(f))
+					templ.JSONString(f)
+					templ.JSONScript("id", f).Render(context.Background(), io.Discard)
+				}
+				checkAll(after, false)
+				for _, p := range positions {
+					// and position by position: fail at p, then render p
+					render(p.mk(f))
+					html, err := render(p.mk(after))
+					histories++
+					if err != nil {
+						run.Violation("render-error-after-failure:"+p.name, fmt.Sprintf("%s with %#v after a failed render with %T: %v", p.name, after, f, err), map[string]any{"position": p.name})
+					} else if pr := p.check(after, html); pr != "" {
+						run.Violation("value-after-failure:"+p.name, fmt.Sprintf("%s with %#v, rendered right after a failed render with a %T value, gives %s: %s", p.name, after, f, vlib.Quote(html), pr), map[string]any{"position": p.name, "value": fmt.Sprintf("%#v", after), "failed_before": fmt.Sprintf("%T", f), "html": html})
+					}
+				}
+			}
+		}
+		runtime.UnlockOSThread()
+		run.Cov["fail_then_render_histories"] = histories
 	}
 
 	// ----- part 3 first: the emulation used by part 2 equals the compiled output -----
